@@ -944,7 +944,7 @@ def stream_mixed_start(ctx):
     for it in items:
         it.setdefault('full', not ctx.quick)
         it['max_results'] = ctx.size(4, 8)
-        it['max_positions'] = ctx.size(14, None)
+        it['max_positions'] = None if it['family'] == 'mixed/corpus' else ctx.size(14, None)
     jobs = ctx.size(3, 14)
     order = sorted(range(len(items)), key=lambda i: -len(items[i]['source']))
     buckets = [[] for _ in range(jobs)]
